@@ -2,7 +2,7 @@
    model `Opus.SilkPlcGains.celtLossStep / celtLossGood`.  The counter is a private field, so the TU
    #includes celt_decoder.c and drives a CELT decoder directly: random runs of concealed frames of
    2.5/5/10/20 ms (incl. runs long enough to saturate) interleaved with decoded frames.
-     run <seed> <n>   */
+     run <seed> <n> [quiet]   (quiet: only the predicate on the implementation, `W` lines)   */
 #ifdef HAVE_CONFIG_H
 #include "config.h"
 #endif
@@ -13,11 +13,11 @@ int main(int argc, char **argv)
 {
    vrng r; long n, i; static float pcm[2 * 960]; unsigned char silence[2] = {0xFF, 0xFF};
    static const int RATES[5] = {8000, 12000, 16000, 24000, 48000};
-   long cases = 0;
+   long cases = 0, nw = 0; int quiet;
    vinstall_traps();
    if (argc < 4 || strcmp(argv[1], "run")) { fprintf(stderr, "usage: c09_celtloss run <seed> <n>\n"); return 64; }
    r.s = strtoull(argv[2], 0, 10) * 0xD1342543DE82EF95ULL + 0x632BE59BD9B4E019ULL; r.s ^= vnext(&r) >> 7;
-   n = atol(argv[3]);
+   n = atol(argv[3]); quiet = argc >= 5 && !strcmp(argv[4], "quiet");
    for (i = 0; i < n; i++) {
       int Fs = RATES[vbelow(&r, 5)], ch = 1 + vbelow(&r, 2), steps = 20 + vbelow(&r, 60), s;
       CELTDecoder *st = (CELTDecoder *)malloc(celt_decoder_get_size(ch));
@@ -26,21 +26,31 @@ int main(int argc, char **argv)
          int LM = vbelow(&r, 4), N = (Fs / 400) << LM, before = st->loss_duration, ret;
          int reps = vchance(&r, 5) ? 1300 + vbelow(&r, 9000) : 1, k;
          if (vchance(&r, 30)) {
-            printf("I decskel lossgood %d\n", LM); fflush(stdout);
+            if (!quiet) { printf("I decskel lossgood %d\n", LM); fflush(stdout); }
             ret = celt_decode_with_ec(st, silence, 2, pcm, N, NULL, 0);
-            if (ret != N) { printf("O %s\n", verr(ret)); continue; }
-            printf("O ld=%d\n", st->loss_duration); cases++;
+            if (ret != N) { if (!quiet) printf("O %s\n", verr(ret)); continue; }
+            if (!quiet) printf("O ld=%d\n", st->loss_duration);
+            cases++;
+            /* the property predicate on the implementation: a decoded frame resets the counter */
+            if (st->loss_duration != 0) { nw++; printf("W lossdur | loss_duration %d after a decoded frame (was %d) | decskel lossgood %d\n", st->loss_duration, before, LM); }
             continue;
          }
          for (k = 0; k < reps; k++) {
+            int show;
             before = st->loss_duration;
-            if (k == 0 || k == reps - 1 || (before >= 9985 && before < 10000)) { printf("I decskel lossdur %d %d\n", before, LM); fflush(stdout); }
+            show = !quiet && (k == 0 || k == reps - 1 || (before >= 9985 && before < 10000));
+            if (show) { printf("I decskel lossdur %d %d\n", before, LM); fflush(stdout); }
             ret = celt_decode_with_ec(st, NULL, 0, pcm, N, NULL, 0);
-            if (k == 0 || k == reps - 1 || (before >= 9985 && before < 10000)) { if (ret != N) printf("O %s\n", verr(ret)); else printf("O ld=%d\n", st->loss_duration); cases++; }
+            if (show) { if (ret != N) printf("O %s\n", verr(ret)); else printf("O ld=%d\n", st->loss_duration); }
+            cases++;
+            /* … and a concealed frame never decreases it nor takes it above 10000 */
+            if (ret == N && (st->loss_duration > 10000 || st->loss_duration < before) && nw < 20) {
+               nw++; printf("W lossdur | loss_duration %d -> %d after a concealed frame | decskel lossdur %d %d\n", before, st->loss_duration, before, LM);
+            }
          }
       }
       free(st);
    }
-   printf("# celtloss seed=%s decoders=%ld cases=%ld\n", argv[2], n, cases);
+   printf("# celtloss seed=%s decoders=%ld cases=%ld witnesses=%ld\n", argv[2], n, cases, nw);
    return 0;
 }
